@@ -66,7 +66,7 @@ def run(ctx):
     ctx.require_design_ok(r, "Codec at the scaled limits")
     ctx.log("A: exhaustive %d distinct evaluations, %d generated (%.1fs)" % (r["distinct"], r["generated"], r["wall_s"]))
     nonvac = {}
-    for inst, inv in (("truncating", "RejectNotAlter"), ("unbounded", "RoundTrip"), ("static", "Fresh"), ("inplace", "RoundTrip")):
+    for inst, inv in (("truncating", "RejectNotAlter"), ("unbounded", "RoundTrip"), ("static", "Fresh"), ("inplace", "RoundTrip"), ("merge", "RoundTrip")):
         r2 = ctx.tlc(sdir, "MC_Codec.tla", "MC_Codec_%s.cfg" % inst, timeout=300, count=False, workers=4)
         if r2["inv"] != inv:
             raise vlib.InfraError("the %s instance should violate %s, got %s" % (inst, inv, r2["inv"]))
